@@ -1199,7 +1199,15 @@ def ecdh_party(R, d, peer_pub, priv_loader, pub_loader, preset):
     own2 = aff(e.get_public_key().pubkey.point, R.p)
     if own != own2:
         return own, ("get_public_key() differs from the key returned by the loader", own2)
-    return own, bytes(e.generate_sharedsecret_bytes())
+    secret = bytes(e.generate_sharedsecret_bytes())
+    as_int = e.generate_sharedsecret()
+    if as_int != int.from_bytes(secret, "big"):
+        return own, ("generate_sharedsecret() differs from generate_sharedsecret_bytes()", as_int, secret.hex())
+    # the same agreement with both keys handed to the constructor
+    e2 = ECDH(R.c, e.private_key, e.public_key)
+    if bytes(e2.generate_sharedsecret_bytes()) != secret:
+        return own, ("ECDH(curve, private_key, public_key) gives another secret than the loaders", bytes(e2.generate_sharedsecret_bytes()).hex(), secret.hex())
+    return own, secret
 
 
 def check_ecdh(case, rec):
